@@ -186,6 +186,9 @@ class _TrappedResponse(object):
         self.start_response = start_response
         self.throws = throws
         self.started_response = False
+        # Whatever an earlier call served by this thread left behind
+        # does not belong to this one.
+        vars(_cherrypy.serving).pop('released_show_tracebacks', None)
         self.response = self.trap(
             self.nextapp, self.environ, self.start_response,
         )
@@ -199,8 +202,12 @@ class _TrappedResponse(object):
         return self.trap(next, self.iter_response)
 
     def close(self):
-        if hasattr(self.response, 'close'):
-            self.response.close()
+        try:
+            if hasattr(self.response, 'close'):
+                self.response.close()
+        finally:
+            # The call is over: leave nothing of it in the thread-local.
+            vars(_cherrypy.serving).pop('released_show_tracebacks', None)
 
     def trap(self, func, *args, **kwargs):
         try:
